@@ -1485,6 +1485,10 @@ impl CodegenContext {
         f: F,
     ) -> CoreResult<()> {
         let old_scope_nx = self.current_scope_nx;
+        // Macro invocations are numbered per scope: the invocations inside a scope that only exists from the second pass on
+        // (the body of a macro that is defined further down, a loop whose count was not known yet) would otherwise shift the
+        // numbers, and with them the scope names, of every invocation that follows the scope
+        let old_macro_scope_id = std::mem::replace(&mut self.next_macro_scope_id, 0);
         self.current_scope.push(scope);
         self.current_scope_nx = self
             .symbols
@@ -1512,6 +1516,7 @@ impl CodegenContext {
         }
         self.current_scope_nx = old_scope_nx;
         self.current_scope.pop();
+        self.next_macro_scope_id = old_macro_scope_id;
         result
     }
 
